@@ -1,0 +1,21 @@
+//go:build verif
+// +build verif
+
+// Contracts for deductive verification of package util (comment-only; compiled only
+// with the build tag "verif"). Grammar: /verif/DESIGN.md, Appendix B.
+
+package util
+
+// ---------------------------------------------------------------- C31 generation index
+//@ property C31: (*BoolIndex).Get, (*BoolIndex).Set
+
+// Get returns (current, other, flag): (1, 0, true) when the index is 1, otherwise (0, 1, false)
+//@ func (*BoolIndex).Get
+//@   requires b != nil
+//@   assigns \nothing
+//@   ensures b.index == 1 ==> ret0 == 1 && ret1 == 0 && ret2
+//@   ensures b.index != 1 ==> ret0 == 0 && ret1 == 1 && !ret2
+//@ func (*BoolIndex).Set
+//@   requires b != nil
+//@   assigns b.index
+//@   ensures b.index == ite(index, 1, 0)
